@@ -98,6 +98,12 @@ type canonOpts struct {
 // Store), closure captures, ChangeType and single-input phis to the value it
 // always equals.
 func canon(v ssa.Value, o canonOpts) ssa.Value {
+	return canonSeen(v, o, nil)
+}
+
+// canonSeen: canon with the set of phis being resolved (mutually referring
+// loop phis resolve to themselves, not to an endless recursion).
+func canonSeen(v ssa.Value, o canonOpts, seen map[*ssa.Phi]bool) ssa.Value {
 	for depth := 0; depth < 40 && v != nil; depth++ {
 		if substEnv != nil {
 			if s, ok := substEnv[v]; ok && s != v {
@@ -149,10 +155,17 @@ func canon(v ssa.Value, o canonOpts) ssa.Value {
 			}
 			return v
 		case *ssa.Phi:
+			if seen[x] {
+				return v
+			}
+			if seen == nil {
+				seen = map[*ssa.Phi]bool{}
+			}
+			seen[x] = true
 			var uniq ssa.Value
 			same := true
 			for _, e := range x.Edges {
-				c := canon(e, o)
+				c := canonSeen(e, o, seen)
 				if uniq == nil {
 					uniq = c
 				} else if uniq != c {
@@ -548,7 +561,7 @@ func (P *Prog) paramBoundField(p *ssa.Parameter) *types.Var {
 				bad = true
 				return
 			}
-			if found != nil && found.Name() != f.Name() {
+			if found != nil && P.roleName(found) != P.roleName(f) {
 				bad = true
 				return
 			}
@@ -572,14 +585,14 @@ func (P *Prog) roleOf(v ssa.Value) string {
 	v = cv(v)
 	if _, f := loadOfField(v); f != nil {
 		if _, isKindField := P.roles.kindFieldSet[f.Origin()]; isKindField {
-			return f.Name()
+			return P.roleName(f)
 		}
 		return ""
 	}
 	if p, ok := v.(*ssa.Parameter); ok {
 		if f := P.paramBoundField(p); f != nil {
 			if _, isKindField := P.roles.kindFieldSet[f.Origin()]; isKindField {
-				return f.Name()
+				return P.roleName(f)
 			}
 		}
 	}
@@ -698,4 +711,61 @@ func retVals(rt *ssa.Return) ([]ssa.Value, bool) {
 		}
 	}
 	return out, true
+}
+
+// returnedClosure: the single closure a function returns (a DpFactory, a
+// formatter ...), whatever its position among the function's closures.
+func returnedClosure(fn *ssa.Function) *ssa.Function {
+	if fn == nil {
+		return nil
+	}
+	var out *ssa.Function
+	n := 0
+	eachInstr(fn, func(_ *ssa.BasicBlock, _ int, in ssa.Instruction) {
+		rt, ok := in.(*ssa.Return)
+		if !ok {
+			return
+		}
+		for _, rv := range rt.Results {
+			if mc, ok := cvi(rv).(*ssa.MakeClosure); ok {
+				if f, ok := mc.Fn.(*ssa.Function); ok && f != out {
+					out = f
+					n++
+				}
+			}
+		}
+	})
+	if n != 1 {
+		return nil
+	}
+	return out
+}
+
+// closureStoredToGlobal: the single closure fn stores into the named package-level variable.
+func closureStoredToGlobal(fn *ssa.Function, global string) *ssa.Function {
+	if fn == nil {
+		return nil
+	}
+	var out *ssa.Function
+	n := 0
+	eachInstr(fn, func(_ *ssa.BasicBlock, _ int, in ssa.Instruction) {
+		st, ok := in.(*ssa.Store)
+		if !ok {
+			return
+		}
+		g, ok := st.Addr.(*ssa.Global)
+		if !ok || g.Name() != global {
+			return
+		}
+		if mc, ok := cvi(st.Val).(*ssa.MakeClosure); ok {
+			if f, ok := mc.Fn.(*ssa.Function); ok {
+				out = f
+				n++
+			}
+		}
+	})
+	if n != 1 {
+		return nil
+	}
+	return out
 }
